@@ -126,6 +126,8 @@ ENC = {
     70: [str, _v], 71: [str], 72: [str, _v], 73: [str, _v], 74: [str], 75: [str],
     76: [str, str], 78: [str], 80: [str], 81: [str], 82: [], 83: [str], 84: [str, str], 85: [str],
     90: [str, B, str, str, S],
+    91: [str, B],
+    61: [str, str, S, S],
 }
 
 
@@ -514,6 +516,16 @@ class Interp:
             return getattr(sl(a[0]), 'database', None)
         if c == 90:
             return self.parse(*a)
+        if c == 61:
+            ob = sl(a[0])
+            name = ATTRS.get(type(ob), {}).get(a[1])
+            if name not in ('properties', 'items') or type(ob) is TableGroup:
+                raise Skip()
+            getattr(ob, name)[a[2]] = a[3]
+            return None
+        if c == 91:
+            from pydbml import PyDBML
+            return PyDBML(sl(a[0]).dbml, allow_properties=a[1])
         raise Skip()
 
 
